@@ -47,7 +47,7 @@ def stage_a(chk, yv, wd):
     # 2. direction A: TLC prints the observer table of every state for small/boundary capacities;
     #    the harness replays them on Window<u32|String|(u8,u64)|f64>
     r = tlc("MC_Window", "MC_Window_emit.cfg", workers=1, timeout=1200)
-    chk.add_tlc("MC_Window_emit.cfg", r, {"PMAX": 255, "EmitCaps": "0..9,253,254"})
+    chk.add_tlc("MC_Window_emit.cfg", r, {"PMAX": 255, "EmitCaps": "0..9,254"})
     rows = [p for t, p in r.printed if t == "ROW"]
     if len(rows) != r.distinct or not rows:
         raise ToolError("emit: %d rows for %d states" % (len(rows), r.distinct))
